@@ -71,6 +71,10 @@ Definition sd_busy (p : sdpc) : bool :=
 Definition sp_conn (p : spc) : option nat :=
   match p with SAccepted c | SRejected c | SPassed c | STrack c | SDrop c _ => Some c | _ => None end.
 
+(* serve has closed connection c on one of its drop paths and still has to report it *)
+Definition sp_dropping (p : spc) : option nat :=
+  match p with SDropCb c _ => Some c | SErrCb c (S _) => Some c | _ => None end.
+
 Record inv (k : cfg) (s : state) : Prop := {
   i_crash : crashed s = false;
   i_count : count s = live_count (conns s);
@@ -79,7 +83,7 @@ Record inv (k : cfg) (s : state) : Prop := {
   i_closing : forall c t a, sd s = SdClosing c t a -> exists x, get s c = Some x /\ sd_via x <> ViaNone /\ inmap x = true;
   i_failed : forall c t a, sd s = SdFailed c t a -> exists x, get s c = Some x /\ inmap x = true;
   i_sp : forall c, sp_conn (sp s) = Some c -> exists x, get s c = Some x /\ ph x = PAccepted;
-  i_spd : forall c r, sp s = SDropCb c r -> exists x, get s c = Some x /\ ph x = PDropping
+  i_spd : forall c, sp_dropping (sp s) = Some c -> exists x, get s c = Some x /\ ph x = PDropping
 }.
 
 Lemma cinv_new k : cinv k new_conn.
@@ -160,20 +164,9 @@ Ltac t_sp Hsp Hd :=
     | exists x0; split; [unfold get, put in *; cbn; rewrite nth_upd_other by assumption; assumption|assumption] ]
   end.
 
-Ltac t_spd Hspd Hd :=
-  cbn; intros c0 r0 Hc0;
-  destruct (Hspd _ _ Hc0) as [x0 [Hg0 Hp0]];
-  match type of Hd with get ?s ?d = Some ?x =>
-    destruct (Nat.eq_dec d c0) as [->|Hne];
-    [ rewrite Hg0 in Hd; injection Hd as <-;
-      first [ congruence
-            | eexists; split; [unfold get, put in *; cbn; eapply nth_upd_same; eassumption|];
-              crec x0; unfold via_set in *; cbn in *; try assumption;
-              repeat match goal with |- context [match ?v with ViaNone => _ | _ => _ end] => destruct v; cbn in * end; congruence ]
-    | exists x0; split; [unfold get, put in *; cbn; rewrite nth_upd_other by assumption; assumption|assumption] ]
-  end.
+Ltac t_spd Hspd Hd := t_sp Hspd Hd.
 
-Ltac unf H := unfold step, GuardNow in H; cbn [v_guard_old v_load_old v_track_old v_drop_old v_nil_old] in H.
+Ltac unf H := unfold step, GuardNow in H; cbn [v_guard_old v_load_old v_track_old v_drop_old v_nil_old v_raw_err] in H.
 
 Ltac fin0 := constructor; cbn; auto; try congruence; try (intros; discriminate).
 Ltac fin Hc Hn Hf Hm Hcl Hfl Hsp Hspd Hg :=
@@ -203,7 +196,7 @@ Proof.
     + intros c0 Hc0. exists new_conn. split; [|reflexivity].
       assert (c0 = length (conns s)) by (destruct (on_accept k); cbn in Hc0; congruence). subst c0.
       destruct (on_accept k); unfold get; cbn; rewrite nth_error_app2 by lia; rewrite Nat.sub_diag; reflexivity.
-    + intros c0 r0 Hc0. destruct (on_accept k); discriminate.
+    + intros c0 Hc0. destruct (on_accept k); discriminate.
   - (* LAcceptCb *)
     destruct (sp s) eqn:Esp; try discriminate. destruct (get s c) as [x|] eqn:Hg; try discriminate.
     destruct (Nat.eqb c c0 && on_accept k && (n =? count s + 1)%Z) eqn:E; try discriminate.
@@ -246,11 +239,11 @@ Proof.
     destruct (Hsp c eq_refl) as [x1 [Hg1 Hp1]]. rewrite Hg in Hg1. injection Hg1 as <-.
     constructor; [cbn; assumption | t_count Hg | t_conns Hf Hg | cbn; congruence | t_closing Hcl Hg | t_closing Hfl Hg
                   | cbn; intros; discriminate | ].
-    cbn. intros c0 r0 Hc0. injection Hc0 as <- <-. eexists. split; [unfold get, put in *; cbn; eapply nth_upd_same; eassumption|reflexivity].
+    cbn. intros c0 Hc0. injection Hc0 as <-. eexists. split; [unfold get, put in *; cbn; eapply nth_upd_same; eassumption|reflexivity].
   - (* LDropCb *)
     destruct (sp s) eqn:Esp; try discriminate. destruct (get s c) as [x|] eqn:Hg; try discriminate.
     destruct (Nat.eqb c c0) eqn:E; try discriminate. apply Nat.eqb_eq in E. subst c0. injection H as <-.
-    destruct (Hspd c ret eq_refl) as [x1 [Hg1 Hp1]]. rewrite Hg in Hg1. injection Hg1 as <-.
+    destruct (Hspd c eq_refl) as [x1 [Hg1 Hp1]]. rewrite Hg in Hg1. injection Hg1 as <-.
     destruct (on_close k) eqn:Eoc; destruct ret;
     (constructor; [cbn; assumption | t_count Hg | t_conns Hf Hg | cbn; congruence | t_closing Hcl Hg | t_closing Hfl Hg
                   | cbn; intros; discriminate | cbn; intros; discriminate]).
@@ -313,6 +306,25 @@ Proof.
   - (* LSdReturn *) brk H; injection H as <-; fin0.
   - (* LCancel *) brk H; injection H as <-; fin0.
   - (* LAfterClose *) brk H; injection H as <-; fin0.
+  - (* LRejectCloseErr *)
+    destruct (sp s) eqn:Esp; try discriminate. destruct (get s c) as [x|] eqn:Hg; try discriminate.
+    destruct (Nat.eqb c c0) eqn:E; try discriminate. apply Nat.eqb_eq in E. subst c0. injection H as <-.
+    destruct (Hsp c eq_refl) as [x1 [Hg1 Hp1]]. rewrite Hg in Hg1. injection Hg1 as <-.
+    constructor; [cbn; assumption | t_count Hg | t_conns Hf Hg | cbn; congruence | t_closing Hcl Hg | t_closing Hfl Hg | cbn; intros; discriminate | cbn; intros; discriminate].
+  - (* LDropCloseErr *)
+    destruct (sp s) eqn:Esp; try discriminate. destruct (get s c) as [x|] eqn:Hg; try discriminate.
+    destruct (Nat.eqb c c0) eqn:E; try discriminate. apply Nat.eqb_eq in E. subst c0. injection H as <-.
+    destruct (Hsp c eq_refl) as [x1 [Hg1 Hp1]]. rewrite Hg in Hg1. injection Hg1 as <-.
+    constructor; [cbn; assumption | t_count Hg | t_conns Hf Hg | cbn; congruence | t_closing Hcl Hg | t_closing Hfl Hg
+                  | cbn; intros; discriminate | ].
+    cbn. intros c0 Hc0. assert (c0 = c) by (destruct ret; cbn in Hc0; congruence). subst c0.
+    eexists. split; [unfold get, put in *; cbn; eapply nth_upd_same; eassumption|reflexivity].
+  - (* LConnExitErr *) cs H. brk Hy; injection Hy as <-; fin Hc Hn Hf Hm Hcl Hfl Hsp Hspd Hg.
+  - (* LServeErrCb *)
+    destruct (sp s) eqn:Esp; try discriminate. destruct (Nat.eqb c c0) eqn:E; try discriminate.
+    apply Nat.eqb_eq in E. subst c0. cbn in H. injection H as <-.
+    destruct next as [|[|n]]; (constructor; cbn; auto; try (intros; discriminate);
+      intros c1 Hc1; injection Hc1 as <-; apply (Hspd c); reflexivity).
 Qed.
 
 Theorem reach_inv k s : reach GuardNow k s -> inv k s.
@@ -418,7 +430,7 @@ Proof.
     destruct (Hsp c0 eq_refl) as [x1 [Hg1 Hp1]]. rewrite Hg in Hg1. injection Hg1 as <-. cbn. t_keep G Hg.
   - destruct (sp s) eqn:Esp; try discriminate. destruct (get s c0) as [x0|] eqn:Hg; try discriminate.
     destruct (Nat.eqb c0 c1) eqn:E; try discriminate. apply Nat.eqb_eq in E. subst c1. injection H as <-.
-    destruct (Hspd c0 ret eq_refl) as [x1 [Hg1 Hp1]]. rewrite Hg in Hg1. injection Hg1 as <-.
+    destruct (Hspd c0 eq_refl) as [x1 [Hg1 Hp1]]. rewrite Hg in Hg1. injection Hg1 as <-.
     destruct (on_close k); destruct ret; cbn; t_keep G Hg.
   - brk H; injection H as <-; same G.
   - cs H. brk Hy; injection Hy as <-; t_keep G Hg.
@@ -454,6 +466,14 @@ Proof.
   - brk H; injection H as <-; same G.
   - brk H; injection H as <-; same G.
   - brk H; injection H as <-; same G.
+  - destruct (sp s) eqn:Esp; try discriminate. destruct (get s c0) as [x0|] eqn:Hg; try discriminate.
+    destruct (Nat.eqb c0 c1) eqn:E; try discriminate. injection H as <-. cbn. t_keep G Hg.
+  - destruct (sp s) eqn:Esp; try discriminate. destruct (get s c0) as [x0|] eqn:Hg; try discriminate.
+    destruct (Nat.eqb c0 c1) eqn:E; try discriminate. apply Nat.eqb_eq in E. subst c1. injection H as <-.
+    destruct (Hsp c0 eq_refl) as [x1 [Hg1 Hp1]]. rewrite Hg in Hg1. injection Hg1 as <-. cbn. t_keep G Hg.
+  - cs H. brk Hy; injection Hy as <-; t_keep G Hg.
+  - destruct (sp s) eqn:Esp; try discriminate. destruct (Nat.eqb c0 c1) eqn:E; try discriminate.
+    cbn in H. injection H as <-. same G.
 Qed.
 
 (* ---------- flags: listener, shutdown flag, serve's result ---------- *)
@@ -587,6 +607,14 @@ Proof.
   - destruct (cancelled s && published (sp s) && negb (returned (sp s)) && lis_open s) eqn:E; try discriminate.
     injection H as <-. apply andb_prop in E as [E E4]. apply andb_prop in E as [E E3]. apply andb_prop in E as [E1 E2].
     constructor; cbn; auto.
+  - destruct (sp s) eqn:Esp; try discriminate. destruct (get s c) as [x|] eqn:Hg; try discriminate.
+    destruct (Nat.eqb c c0) eqn:E; try discriminate. injection H as <-. ffin.
+  - destruct (sp s) eqn:Esp; try discriminate. destruct (get s c) as [x|] eqn:Hg; try discriminate.
+    destruct (Nat.eqb c c0) eqn:E; try discriminate. injection H as <-. destruct ret; ffin.
+  - cs H. brk Hy; injection Hy as <-; fext.
+  - destruct (sp s) eqn:Esp; try discriminate. destruct (Nat.eqb c c0) eqn:E; try discriminate.
+    destruct (v_raw_err v && Nat.eqb next 0 && negb (on_error k)); injection H as <-; [fext|].
+    destruct next as [|[|n]]; ffin.
 Qed.
 
 (* ---------- a pass of Shutdown that has found everything idle has visited the whole map ---------- *)
@@ -597,7 +625,7 @@ Definition cinv3 (s : state) : Prop :=
   | SdPass t true => cover s t None
   | SdFailed c t true => cover s t (Some c)
   | SdClosing c t true => cover s t (Some c)
-  | SdReturned ENil => cover s [] None
+  | SdReturned ENil | SdReturned EOther => cover s [] None       (* returned after a pass that found everything idle *)
   | _ => True
   end.
 
@@ -717,9 +745,16 @@ Proof.
   - brk H; injection H as <-; unfold cinv3; cbn; intros d x G I; left; apply (inmap_ids_complete _ 0 d x G I).
   - brk H; injection H as <-; unfold cinv3; cbn; exact I.
   - destruct (sd s) as [|t0 a0| | | |] eqn:Esd; try discriminate. destruct t0; try discriminate. destruct a0; try discriminate.
-    injection H as <-. unfold cinv3 in *. rewrite Esd in Hcov. cbn. destruct (sd_err s); [exact I|exact Hcov].
+    injection H as <-. unfold cinv3 in *. rewrite Esd in Hcov. cbn. destruct (sd_err s); exact Hcov.
   - brk H; injection H as <-; t_same Hcov.
   - brk H; injection H as <-; t_same Hcov.
+  - destruct (sp s) eqn:Esp; try discriminate. destruct (get s c) as [x|] eqn:Hg; try discriminate.
+    destruct (Nat.eqb c c0) eqn:E; try discriminate. injection H as <-. t_cov Hcov Hm Hg.
+  - destruct (sp s) eqn:Esp; try discriminate. destruct (get s c) as [x|] eqn:Hg; try discriminate.
+    destruct (Nat.eqb c c0) eqn:E; try discriminate. injection H as <-. t_cov Hcov Hm Hg.
+  - cs H. brk Hy; injection Hy as <-; t_cov Hcov Hm Hg.
+  - destruct (sp s) eqn:Esp; try discriminate. destruct (Nat.eqb c c0) eqn:E; try discriminate.
+    cbn in H. injection H as <-. t_same Hcov.
 Qed.
 
 Lemma finv_init v k : finv v k init.
@@ -735,18 +770,18 @@ Qed.
 (* ---------- (f) bounded return of serve once the listener is closed ---------- *)
 Definition serve_left (p : spc) : nat :=
   match p with
-  | SStart => 3 | SCalled => 2 | SLoop => 1 | SAccepted _ => 6 | SRejected _ => 2 | SPassed _ => 5 | STrack _ => 4
-  | SDrop _ _ => 3 | SDropCb _ _ => 2 | SLeaving _ => 1 | SReturned _ => 0
+  | SStart => 4 | SCalled => 3 | SLoop => 1 | SAccepted _ => 8 | SRejected _ => 3 | SPassed _ => 7 | STrack _ => 6
+  | SDrop _ _ => 5 | SErrCb _ 0 => 2 | SErrCb _ (S _) => 4 | SDropCb _ _ => 3 | SLeaving _ => 2 | SReturned _ => 0
   end.
 Definition is_serve (l : label) : bool := match label_gor l with GServe => true | _ => false end.
 Fixpoint count_serve (ls : list label) : nat :=
   match ls with [] => 0 | l :: t => (if is_serve l then 1 else 0) + count_serve t end.
 
-Lemma serve_step_measure v k s l s' : lis_open s = false -> step v k s l = Some s' ->
+Lemma serve_step_measure v k s l s' : v_raw_err v = false -> lis_open s = false -> step v k s l = Some s' ->
   lis_open s' = false /\
   (if is_serve l then serve_left (sp s') < serve_left (sp s) else sp s' = sp s).
 Proof.
-  intros Hl H. unfold step in H. destruct (crashed s); [discriminate|].
+  intros Hv Hl H. unfold step in H. rewrite ?Hv in H. destruct (crashed s); [discriminate|].
   destruct l; unfold is_serve; cbn [label_gor].
   - brk H; injection H as <-; cbn; rewrite ?Heqs0; cbn; first [split; [first [assumption|reflexivity]|lia] | auto].
   - brk H; injection H as <-; cbn; rewrite ?Heqs0; cbn; first [split; [first [assumption|reflexivity]|lia] | auto].
@@ -799,21 +834,28 @@ Proof.
   - brk H; injection H as <-; cbn; first [split; [first [assumption|reflexivity]|lia] | auto].
   - brk H; injection H as <-; cbn; first [split; [first [assumption|reflexivity]|lia] | auto].
   - brk H; injection H as <-; cbn; first [split; [first [assumption|reflexivity]|lia] | auto].
+  - destruct (sp s) eqn:Esp; try discriminate. destruct (get s c) as [x|] eqn:Hg; try discriminate.
+    destruct (Nat.eqb c c0) eqn:E; try discriminate. injection H as <-. cbn; first [split; [first [assumption|reflexivity]|lia] | auto].
+  - destruct (sp s) eqn:Esp; try discriminate. destruct (get s c) as [x|] eqn:Hg; try discriminate.
+    destruct (Nat.eqb c c0) eqn:E; try discriminate. injection H as <-. destruct ret; cbn; first [split; [first [assumption|reflexivity]|lia] | auto].
+  - cs H. brk Hy; injection Hy as <-; cbn; first [split; [first [assumption|reflexivity]|lia] | auto].
+  - destruct (sp s) eqn:Esp; try discriminate. destruct (Nat.eqb c c0) eqn:E; try discriminate.
+    cbn in H. injection H as <-. destruct next as [|[|n]]; cbn; (split; [assumption|lia]).
 Qed.
 
-Theorem serve_bounded v k : forall ls s s', lis_open s = false -> run v k s ls = Some s' ->
+Theorem serve_bounded v k : v_raw_err v = false -> forall ls s s', lis_open s = false -> run v k s ls = Some s' ->
   count_serve ls + serve_left (sp s') <= serve_left (sp s) /\ lis_open s' = false.
 Proof.
-  induction ls as [|l t IH]; intros s s' Hl H; cbn in H.
+  intros Hv. induction ls as [|l t IH]; intros s s' Hl H; cbn in H.
   - injection H as <-. cbn. split; [lia|exact Hl].
   - destruct (step v k s l) as [s1|] eqn:E; [|discriminate].
-    destruct (serve_step_measure _ _ _ _ _ Hl E) as [Hl1 Hm]. destruct (IH _ _ Hl1 H) as [Hc Hl']. split; [|exact Hl'].
+    destruct (serve_step_measure _ _ _ _ _ Hv Hl E) as [Hl1 Hm]. destruct (IH _ _ Hl1 H) as [Hc Hl']. split; [|exact Hl'].
     cbn [count_serve]. destruct (is_serve l); [lia|rewrite Hm in Hc; lia].
 Qed.
-Corollary serve_bounded_6 v k ls s s' : lis_open s = false -> run v k s ls = Some s' -> count_serve ls <= 6.
+Corollary serve_bounded_8 v k ls s s' : v_raw_err v = false -> lis_open s = false -> run v k s ls = Some s' -> count_serve ls <= 8.
 Proof.
-  intros Hl H. destruct (serve_bounded v k ls s s' Hl H) as [Hc _].
-  assert (serve_left (sp s) <= 6) by (destruct (sp s); cbn; lia). lia.
+  intros Hv Hl H. destruct (serve_bounded v k Hv ls s s' Hl H) as [Hc _].
+  assert (serve_left (sp s) <= 8) by (destruct (sp s) as [| | | | | | | | |? [|?]| |]; cbn; lia). lia.
 Qed.
 
 (* cancelling makes the listener-closing step available, and it stays available until taken *)
@@ -845,8 +887,9 @@ Proof.
     destruct (shut s) eqn:Es; eexists; (split; [reflexivity|]); unfold step; rewrite Hc, Esp, G, Nat.eqb_refl, Hmu, Es; reflexivity.
   - destruct (Hsp c eq_refl) as [x [G P]]. exists (LDropClose c). eexists. split; [reflexivity|].
     unfold step. rewrite Hc, Esp, G, Nat.eqb_refl. reflexivity.
-  - destruct (Hspd c ret eq_refl) as [x [G P]]. exists (LDropCb c). eexists. split; [reflexivity|].
+  - destruct (Hspd c eq_refl) as [x [G P]]. exists (LDropCb c). eexists. split; [reflexivity|].
     unfold step. rewrite Hc, Esp, G, Nat.eqb_refl. reflexivity.
+  - exists (LServeErrCb c). eexists. split; [reflexivity|]. unfold step. rewrite Hc, Esp, Nat.eqb_refl. reflexivity.
   - exists (LServeReturn EClosed). eexists. split; [reflexivity|]. unfold step. rewrite Hc, Esp. reflexivity.
 Qed.
 
@@ -1157,6 +1200,26 @@ Proof.
   - brk H; injection H as <-; p_same HP.
   - brk H; injection H as <-; p_same HP.
   - brk H; injection H as <-; p_same HP.
+  - (* LRejectCloseErr *) destruct (sp s) eqn:Esp; try discriminate. destruct (get s c) as [x|] eqn:Hg; try discriminate.
+    destruct (Nat.eqb c c0) eqn:E; try discriminate. apply Nat.eqb_eq in E. subst c0. injection H as <-.
+    unfold pinv in *. cbn. intros c' x' G' P'. exfalso.
+    destruct (Nat.eq_dec c c') as [->|Hne].
+    + unfold get, put in G'; cbn in G'. rewrite (nth_upd_same _ _ _ _ Hg) in G'. injection G' as <-. discriminate P'.
+    + unfold get, put in G'; cbn in G'. rewrite nth_upd_other in G' by assumption.
+      destruct (HP c' x' G' P') as [A|[_ A]]; rewrite Esp in A; cbn in A; [|discriminate]. injection A as <-. congruence.
+  - (* LDropCloseErr *) destruct (sp s) eqn:Esp; try discriminate. destruct (get s c) as [x|] eqn:Hg; try discriminate.
+    destruct (Nat.eqb c c0) eqn:E; try discriminate. apply Nat.eqb_eq in E. subst c0. injection H as <-.
+    unfold pinv in *. cbn. intros c' x' G' P'. exfalso.
+    destruct (Nat.eq_dec c c') as [->|Hne].
+    + unfold get, put in G'; cbn in G'. rewrite (nth_upd_same _ _ _ _ Hg) in G'. injection G' as <-. discriminate P'.
+    + unfold get, put in G'; cbn in G'. rewrite nth_upd_other in G' by assumption.
+      destruct (HP c' x' G' P') as [A|[_ A]]; rewrite Esp in A; cbn in A; [|discriminate]. injection A as <-. congruence.
+  - cs H. brk Hy; injection Hy as <-; t_p HP Hg.
+  - (* LServeErrCb *) destruct (sp s) eqn:Esp; try discriminate. destruct (Nat.eqb c c0) eqn:E; try discriminate.
+    assert (A : forall s1, conns s1 = conns s -> pinv v s1).
+    { intros s1 E1. unfold pinv, get in *. rewrite E1. intros c' x' G' P'.
+      destruct (HP c' x' G' P') as [A|[_ A]]; rewrite Esp in A; discriminate. }
+    destruct (v_raw_err v && Nat.eqb next 0 && negb (on_error k)); injection H as <-; apply A; reflexivity.
 Qed.
 
 
@@ -1472,6 +1535,21 @@ Proof.
   - brk H; injection H as <-; unfold tinv; cbn; exact I.
   - brk H; injection H as <-; t_tsame Ht.
   - brk H; injection H as <-; t_tsame Ht.
+  - destruct (sp s) eqn:Esp; try discriminate. destruct (get s c) as [x|] eqn:Hg; try discriminate.
+    destruct (Nat.eqb c c0) eqn:E; try discriminate. apply Nat.eqb_eq in E. subst c0. injection H as <-.
+    destruct (Hsp c eq_refl) as [x1 [Hg1 Hp1]]. rewrite Hg in Hg1. injection Hg1 as <-.
+    pose proof (Forall_nthe _ _ _ _ Hf Hg) as Hx.
+    assert (Him : inmap x = false) by (destruct (inmap x) eqn:Ei; [pose proof (ci_inmap _ _ Hx Ei) as A; rewrite Hp1 in A; discriminate|reflexivity]).
+    t_tin Ht Hm Hg.
+  - destruct (sp s) eqn:Esp; try discriminate. destruct (get s c) as [x|] eqn:Hg; try discriminate.
+    destruct (Nat.eqb c c0) eqn:E; try discriminate. apply Nat.eqb_eq in E. subst c0. injection H as <-.
+    destruct (Hsp c eq_refl) as [x1 [Hg1 Hp1]]. rewrite Hg in Hg1. injection Hg1 as <-.
+    pose proof (Forall_nthe _ _ _ _ Hf Hg) as Hx.
+    assert (Him : inmap x = false) by (destruct (inmap x) eqn:Ei; [pose proof (ci_inmap _ _ Hx Ei) as A; rewrite Hp1 in A; discriminate|reflexivity]).
+    t_tin Ht Hm Hg.
+  - cs H. brk Hy; injection Hy as <-; t_tin Ht Hm Hg.
+  - destruct (sp s) eqn:Esp; try discriminate. destruct (Nat.eqb c c0) eqn:E; try discriminate.
+    cbn in H. injection H as <-. t_tsame Ht.
 Qed.
 
 Theorem reach_tinv k s : reach GuardNow k s -> tinv s.
@@ -1672,3 +1750,65 @@ Proof.
     split; [reflexivity|]. split; [reflexivity|]. split; [reflexivity|].
     intros d N. unfold get, put. cbn. rewrite nth_upd_other by congruence. reflexivity.
 Qed.
+
+(* ---------- a nil Shutdown, whichever call it is, leaves no exchange in flight ---------- *)
+Theorem no_exchange_after_return k s c x : reach GuardNow k s -> sd s = SdReturned ENil \/ sd s = SdReturned EOther ->
+  get s c = Some x ->
+  handling_ph (ph x) = false /\ owed x = [] /\ inmap x = false /\ (is_live (ph x) = true -> sock x = false).
+Proof.
+  intros R E G. pose proof (reach_cinv3 _ _ R) as C3.
+  pose proof (reach_get_cinv _ _ _ _ R G) as [H1 H2 H3 H4 H5 H6 H7 H8 H9 H10 H11 H12].
+  assert (Hi : inmap x = false).
+  { destruct (inmap x) eqn:Ei; [|reflexivity]. unfold cinv3 in C3. destruct E as [E|E]; rewrite E in C3;
+      (destruct (C3 c x G Ei) as [[]|Hx]; discriminate). }
+  assert (Hl : is_live (ph x) = true -> sock x = false) by (intros L; apply (H6 L Hi)).
+  assert (Hh : handling_ph (ph x) = false).
+  { destruct (handling_ph (ph x)) eqn:Eh; [|reflexivity]. exfalso.
+    assert (L : is_live (ph x) = true) by (destruct (ph x); try discriminate; reflexivity).
+    assert (P : pre_exit (ph x) = true) by (destruct (ph x); try discriminate; reflexivity).
+    specialize (H7 (H8 (Hl L) P)). rewrite (H3 eq_refl) in H7. discriminate. }
+  split; [exact Hh|]. split; [|split; [exact Hi|exact Hl]].
+  destruct (owed x) eqn:Eo; [reflexivity|]. exfalso.
+  destruct (H4 ltac:(discriminate)) as [P|[P _]]; rewrite P in Hh; discriminate.
+Qed.
+
+(* a first Shutdown gives up (its short context expires while a handler is in flight), the caller retries:
+   the second Shutdown cannot return while the handler runs, and returns after the reply has been written
+   and the connection closed -- with the error of closing the listener a second time (the first call
+   had closed it), which is what the code does with a real net.Listener too *)
+Definition repeated_shutdown_prefix : list label :=
+  [LServeCb; LPublish; LAccept 0; LCtxPass 0; LTrack 0; LConnRead 0 RData; LHandleStart 0; LHandlerStart 0;
+   LSdCall; LSdBegin; LSdCas 0; LSdLoad 0; LSdPassEnd; LSdTimeout;
+   LSdCall; LSdBegin; LSdCas 0; LSdLoad 0].
+Definition repeated_shutdown_rest : list label :=
+  [LSdPassEnd; LHandlerEnd 0 true; LReplyWrite 0 true; LHandleEnd 0; LSdRetry; LSdCas 0; LSdClose 0; LSdReturn].
+Lemma repeated_shutdown_example :
+  exists s1, run GuardNow cfg_none init repeated_shutdown_prefix = Some s1 /\
+    step GuardNow cfg_none s1 LSdReturn = None /\ step GuardNow cfg_none s1 (LSdClose 0) = None /\
+    exists s2 x, run GuardNow cfg_none s1 repeated_shutdown_rest = Some s2 /\ sd s2 = SdReturned EOther /\
+      get s2 0 = Some x /\ replied x = 1 /\ owed x = [] /\ sock x = false /\ sd_via x = ViaCas.
+Proof.
+  eexists. split; [vm_compute; reflexivity|]. split; [vm_compute; reflexivity|]. split; [vm_compute; reflexivity|].
+  eexists. eexists. split; [vm_compute; reflexivity|]. repeat split; reflexivity.
+Qed.
+
+(* ---------- the error callback at serve's call sites ---------- *)
+(* serve reports the error of a failing Close through its local onErrorFunc, which is never nil *)
+Lemma serve_err_cb_safe k s c s' : step GuardNow k s (LServeErrCb c) = Some s' -> crashed s' = false.
+Proof.
+  intros H. unf H. destruct (crashed s) eqn:Hc; [discriminate|]. destruct (sp s); try discriminate.
+  destruct (Nat.eqb c c0); try discriminate. cbn in H. injection H as <-. exact Hc.
+Qed.
+(* the reject path calling the raw field s.OnErrorFunc instead: accept callback set and rejecting,
+   OnErrorFunc unset, Close() failing -> nil function call in the serve goroutine *)
+Definition reject_close_error_run : list label :=
+  [LServeCb; LPublish; LAccept 0; LAcceptCb 0 1 false; LRejectCloseErr 0; LServeErrCb 0].
+Lemma raw_error_field_crashes : exists s, reach RawErr cfg_accept_only s /\ crashed s = true.
+Proof.
+  destruct (run RawErr cfg_accept_only init reject_close_error_run) as [s|] eqn:E; [|vm_compute in E; discriminate].
+  exists s. split; [eapply run_reach; exact E|]. vm_compute in E. injection E as <-. reflexivity.
+Qed.
+Lemma now_reject_close_error_ok :
+  exists s x, run GuardNow cfg_accept_only init reject_close_error_run = Some s /\ crashed s = false /\ sp s = SLoop /\
+              get s 0 = Some x /\ ph x = PRejected /\ sock x = false /\ close_cb x = 0 /\ errs s = 0.
+Proof. eexists. eexists. split; [vm_compute; reflexivity|]. repeat split; reflexivity. Qed.
